@@ -44,7 +44,7 @@ func main() {
 			"Filter/While with every predicate mask by position for length <= %d (longer: every mask for 4 sequences per length and 10 fixed masks for every sequence); "+
 			"First/Last n = 0..len+1; Chunk size 1..len+1; Compact, CompactFunc/Runs with 5 equivalences; WithPeek with every Peek/Next pattern of length min(len+2,%d) then drained; "+
 			"Flatten/FlattenSlices/Join over every cut of every sequence of length <= %d into <= %d possibly-empty parts; Equal over all pairs of length <= %d and every one-place variation; "+
-			"Counter/Repeat n = -3..9. Then random inputs of length <= %d and random pipelines of 2-4 combinators against the composed reference.",
+			"Counter/Repeat n = -3..9. Long stretches: Flatten / FlattenSlices / Filter / Compact / CompactFunc over one item, N skipped items, one item (N = 20-30 million for iterators, the same for streams; stack depth must not grow with N). Then random inputs of length <= %d and random pipelines of 2-4 combinators against the composed reference.",
 			maxLen, cfg.fullMaskLen, cfg.peekLen, cutLen, cutParts, pairLen, randLen))
 		r.SetExhaustive(true)
 		r.SetExtra("exhaustive_scope", "the small-scope groups (small/*) enumerate their stated bounds completely; the rand/* groups are seeded samples")
@@ -102,6 +102,11 @@ func main() {
 		})
 		r.Cases("small/equal", N, W, func(c *vkit.Case) { a := newAcc(c); smallEqual(a, sp, c.Index, pairLen); a.flush() })
 
+		// Long stretches of skipped input (long.go); a stack overflow here kills the process and is
+		// reported by check.sh as a crash violation naming the scenario.
+		longs := longScenarios(r.Scale(20_000_000, 30_000_000), r.Scale(20_000_000, 30_000_000), 1_000_000)
+		r.Cases("long", len(longs), 1, func(c *vkit.Case) { a := newAcc(c); runLong(a, longs[c.Index]); a.flush() })
+
 		nSingle := r.Scale(150000, 600000)
 		nPipe := r.Scale(250000, 900000)
 		// a short sequential prelude: the first non-trivial pipeline over a short input is the sample
@@ -130,6 +135,11 @@ func main() {
 			}
 			r.Floor("triples checked for "+op, r.Table("triples by operation", op), want)
 		}
+		var longRun int64
+		for _, sc := range longs {
+			longRun += r.Table("long-stretch scenarios (N skipped items between two real ones)", sc.name)
+		}
+		r.Floor("long-stretch scenarios run", longRun, int64(len(longs)))
 		r.Floor("random pipelines checked", r.Table("triples by operation", "pipeline"), int64(nPipe))
 		r.Floor("Next calls after the end checked", r.Table("totals", "Next calls after the end checked"), int64(3*N))
 		r.Floor("regression scenarios D1 (Last, n == 0)", r.Table("regression scenarios", "D1 iterator.Last / stream.Last with n == 0"), 3)
